@@ -22,6 +22,13 @@ CLAIMED["C09"] = ("Bounded symbolic model checking of history navigation and sea
  "Trusted: gosx, the paint stubs (display output is not observed), the terminal stub answering cursor queries; incremental search (Ctrl-R/Ctrl-S sessions) is not driven.",
  "symbolic execution of the real SSA (Readline loop) + SMT (z3) assertions against a navigation model", "DESIGN.md §5 C09")
 
+CLAIMED["C16"] = ("Bounded symbolic model checking of kill/yank through the real Readline loop: from a symbolic buffer, cursor and mark each kill command (by name, typed through its binding, with and without a numeric argument) runs, then yank / vi-put-before; contiguity of the removed range, equality with the kill-ring top and restoration of the buffer are asserted on every path and decided by z3.",
+ "Trusted: gosx, paint stubs, terminal stub; buffers exclude NUL (Line.Insert strips it by design).",
+ "symbolic execution of the real SSA (Readline loop) + SMT (z3) assertions", "DESIGN.md §5 C16")
+CLAIMED["C17"] = ("Bounded symbolic differential model checking of the vi operators: two shells start from the same symbolic buffer/cursor, one runs d<count><motion>, the other y<count><motion>, for every motion/text object of the property; buffer-unchanged-by-yank, one-contiguous-range-removed and equality of both registers with that range are asserted on every path.",
+ "Trusted: gosx, paint stubs, terminal stub. Visual-mode variants (v m d / v m y) are not driven.",
+ "symbolic execution of the real SSA (two Readline runs per path) + SMT (z3) equivalence assertions", "DESIGN.md §5 C17")
+
 PENDING = {}
 
 NA = {
